@@ -28,7 +28,7 @@ def leaves(c):
         return 1
     if c["w"] == "[[T!]]":
         return 3
-    return 2
+    return 2      # also val_nullitem / val_nullfirst: two non-null leaves
 
 
 def run(tier, work, replay=None):
